@@ -34,10 +34,13 @@ static const char *TPL[] = {
     "plain text without tags <b> & \"quotes\"",
     "<loop value=\"top\">{var:top}</loop>",
     "<loop set=\"people\" value=\"p\" group=\"age\">{var:p}:<loop set=\"p\" value=\"q\">{var:q[name]}{var:q[team]}</loop>|</loop>", // keys that are numbers
+    // reals whose two-decimal rendering carries into a new leading digit (9.996 -> 10): the formatter grows the stream by one unit
+    // in the middle of its work, at every fill state of the destination
+    "{var:r1}|{raw:r2}|{math:{var:r3}*1}|{var:r4}|{var:r1}{var:r1}",
 };
 static const char *VAL[] = {
-    R"({"name":"Q<e>","html":"<i>&</i>","n":5,"flag":true,"phrase":"{0} has {1} & {2}","list":[3,1,2],"obj":{"k2":"b","k1":"a","k3":[1]},"people":[{"name":"A","team":"x","age":31},{"name":"B","team":"y","age":25},{"name":"C","team":"x","age":40}],"matrix":[[1,2],[3,4]]})",
-    R"({"name":"other","html":"","n":7,"flag":false,"phrase":"no placeholders","list":[9,8,7,6],"obj":{"z":1},"people":[{"name":"D","team":"t","age":50}],"matrix":[[5]]})",
+    R"({"r1":9.996,"r2":0.999,"r3":-0.999,"r4":99999.995001,"name":"Q<e>","html":"<i>&</i>","n":5,"flag":true,"phrase":"{0} has {1} & {2}","list":[3,1,2],"obj":{"k2":"b","k1":"a","k3":[1]},"people":[{"name":"A","team":"x","age":31},{"name":"B","team":"y","age":25},{"name":"C","team":"x","age":40}],"matrix":[[1,2],[3,4]]})",
+    R"({"r1":0.5,"r2":99.999,"r3":9.995,"r4":-9.996,"name":"other","html":"","n":7,"flag":false,"phrase":"no placeholders","list":[9,8,7,6],"obj":{"z":1},"people":[{"name":"D","team":"t","age":50}],"matrix":[[5]]})",
     R"({"name":"","n":-2.5,"flag":0,"list":[],"obj":{},"people":[],"matrix":[]})",
 };
 
